@@ -17,7 +17,7 @@ RULE = ('store events under overflow=wrap (value and raw mode; core domain, and 
         '2^(n_word-n_frac) must give equal codes (relational, no model); arithmetic whose governing overflow is wrap and whose exact result is a '
         'multiple of the target LSB must equal the n_word-bit register value (a op b) mod 2^n. Key = (signedness, word class, fraction class, '
         'rounding, side, number of wraps class, kind); non-trivial = at least one wrap (input outside the range).')
-DECIDING_OPS = ['__init__', 'set_val', '__call__', ('add', '__add__'), ('mul', '__mul__')]
+DECIDING_OPS = ['__init__', 'set_val', '__call__', ('add', '__add__'), ('mul', '__mul__'), 'resize']
 ANCHORS = ['utils.wrap', 'objects.Fxp._overflow_action']
 EXHAUSTIVE = {'quick': 'every quarter-LSB input over 3x the range, all formats n_word<=4, n_frac -8..n_word+8, 5 roundings, wrap',
               'thorough': 'same for n_word<=6'}
@@ -174,7 +174,40 @@ def make_judges(ctx):
                    {'op': ev.op, 'x': ai.x.describe(), 'y': ai.y.describe(), 'result': res.describe(), 'way': way} if (wrapped and ctx.want_sample()) else None, elements=len(xs))
         if wrapped:
             ctx.floor_hit(('register', ai.op, way))
-    return [store_judge, register_judge]
+    def resize_judge(ev):
+        """a resize re-stores the value: under wrap the new code is the in-range residue of the rounded old value"""
+        if ev.kind != 'method' or ev.op != 'resize':
+            return
+        pre, post = (ev.pre[0], ev.post[0]) if ev.pre and ev.post else (None, None)
+        if pre is None or post is None or not A.usable(pre) or not A.usable(post) or post.overflow != 'wrap':
+            return
+        d = dict(zip(('signed', 'n_word', 'n_frac', 'n_int', 'restore_val', 'dtype'), ev.args))
+        d.update(ev.kwargs)
+        if d.get('restore_val', True) is not True:
+            return
+        for sn in (pre, post):
+            if not (1 <= sn.n_word <= 52 and -8 <= sn.n_frac <= sn.n_word + 8):
+                ctx.skip('resize:outside the core domain')
+                return
+        if ev.exc is not None:
+            ctx.violation('raises', 'resize of a wrap object raised %s' % type(ev.exc).__name__, ev, key='wrap.raises')
+            return
+        lo, hi = R.code_range(post.signed, post.n_word)
+        m = 1 << post.n_word
+        lsb = R.lsb(pre.n_frac)
+        sc = F(2) ** post.n_frac
+        wrapped = False
+        for k0, k in zip(pre.codes, post.codes):
+            ru = R.round_exact(k0 * lsb * sc, post.rounding)
+            wrapped |= not (lo <= ru <= hi)
+            if not isinstance(k, int) or not (lo <= k <= hi) or (k - ru) % m != 0:
+                ctx.violation('resize_not_residue', 'resize %s -> %s %s/wrap: old code %d (rounded new scaled value %d) became %r, not its in-range residue mod 2^%d' % (
+                    R.dtype_fxp(*pre.fmt()), R.dtype_fxp(*post.fmt()), post.rounding, k0, ru, k, post.n_word), ev)
+                break
+        ctx.judged(('resize', pre.signed, post.signed, (post.n_word > pre.n_word) - (post.n_word < pre.n_word), wrapped), wrapped, None, elements=len(pre.codes))
+        if wrapped:
+            ctx.floor_hit(('resize-wrap',))
+    return [store_judge, register_judge, resize_judge]
 
 
 def _pyint_carrier(c):
@@ -191,7 +224,7 @@ def _pyint_carrier(c):
 
 def floors(tier):
     return [('wide', n) for n in WIDE] + [('core', s, r) for s in 'su' for r in G.ROUNDINGS] + \
-           [('register', op, way) for op in ('add', 'sub', 'mul') for way in ('out', 'same')]
+           [('register', op, way) for op in ('add', 'sub', 'mul') for way in ('out', 'same')] + [('resize-wrap',)]
 
 
 # ------------------------------------------------------------------------------------------ workload
@@ -243,6 +276,18 @@ def run_case(case, ctx):
                     ext.append(u)
         allv = vals + ext
         _try(lambda: Fxp(np.array([float(v) for v in allv]), s, w, nf, rounding=r, overflow='wrap'))
+        # resizing a wrap register: signedness flips, narrowing, widening, fraction changes
+        z = _try(lambda: Fxp(float(vals[0]), s, w, nf, rounding=r, overflow='wrap'))
+        if z is not None:
+            _try(lambda: z.resize(signed=not z.signed))
+            _try(lambda: z.resize(n_word=max(1, z.n_word - rng.randint(1, 3))))
+            _try(lambda: z.resize(not z.signed, min(52, z.n_word + rng.randint(0, 2)), z.n_frac))
+            _try(lambda: z.resize(n_frac=max(-8, z.n_frac - rng.randint(1, 3))))
+            _try(lambda: z.resize(dtype=R.dtype_fxp(not z.signed, z.n_word, z.n_frac)))
+        za = _try(lambda: Fxp(np.array([float(v) for v in allv[:4]]), s, w, nf, rounding=r, overflow='wrap'))
+        if za is not None:
+            _try(lambda: za.resize(signed=not za.signed))
+            _try(lambda: za.resize(za.signed, max(1, za.n_word - 2), za.n_frac))
         x = Fxp(None, s, w, nf, rounding=r, overflow='wrap')
         for v in allv[:6]:
             _try(lambda: x(float(v)))
